@@ -337,6 +337,10 @@ func (ex *Executor) enterBlock(st *State, fr *Frame, to *ssa.BasicBlock) bool {
 	preHeap := copyHeap(st.heap)
 	for _, phi := range phisOf(to) {
 		nv := ex.freshOfType(st, "phi."+phi.Comment, phi.Type())
+		if phi.Comment == "rangeindex" {
+			// built-in invariant of go/ssa's range loops: the hidden index starts at -1 and only grows
+			st.assume(Ge(nv.T, Num(-1)))
+		}
 		fr.vals[phi] = nv
 		if phi.Comment != "" {
 			fr.locals[phi.Comment] = localRef{v: nv}
